@@ -184,6 +184,12 @@ func init() {
 		Register(&Job{Name: "C12/engine/sub-unsub-bcast-equal-pids", Prop: "C12", Bound: 0, BoundT: 1, Budget: 40, BudgetT: 600,
 			Desc: "all sequences of length<=4 over {sub, unsub} x {pa, pb, pa' (equal value, distinct object)} + bcast",
 			Make: func() vsched.Instance { return engEventSeq(4, true) }})
+		Register(&Job{Name: "C12/engine/sub-unsub-bcast-foreign-pid", Prop: "C12", Bound: 0, BoundT: 1, Budget: 40, BudgetT: 600,
+			Desc: "all sequences of length<=4 over {sub, unsub} x {pa, pb, pa', pf (the id of pa with a foreign address: a different subscriber)} + bcast",
+			Make: func() vsched.Instance { return engEventSeqFrom(4, true, true, false) }})
+		Register(&Job{Name: "C12/engine/sub-unsub-bcast-from-subscribed", Prop: "C12", Bound: 0, BoundT: 1, Budget: 40, BudgetT: 600,
+			Desc: "all sequences of length<=4 over {sub, unsub} x {pa, pb, pa'} + bcast starting from the state in which pa and pb are already subscribed (non-initial start)",
+			Make: func() vsched.Instance { return engEventSeqFrom(4, true, false, true) }})
 		Register(&Job{Name: "C12/engine/sub-unsub-bcast-5", Prop: "C12", Tier: "thorough", Bound: 0, BoundT: 0, Budget: 40, BudgetT: 900,
 			Desc: "all sequences of length<=5 incl. equal PIDs in distinct objects", Make: func() vsched.Instance { return engEventSeq(5, true) }})
 		Register(&Job{Name: "C12/engine/concurrent-broadcasters", Prop: "C12", Bound: 2, BoundT: 3, Budget: 40, BudgetT: 600,
